@@ -11,6 +11,8 @@ use std::sync::Arc;
 
 #[derive(Clone, Debug)]
 pub struct Contact {
+    /// answers never name any node (a leaf: freshly started or table-less client); it pings the node once at 7 min
+    pub leaf: bool,
     /// None = always answers; Some(t) = completely silent from t on
     pub silent_at: Option<u64>,
     /// not given to the builder: only named by contact 0 (or by the crowd)
@@ -75,6 +77,9 @@ pub fn build(cfg: &Cfg) -> (Scenario, Vec<Box<dyn Peer>>) {
         let mut r = Responder::new(c_addr(i), c_id(i), universe.clone());
         r.silent_from = c.silent_at;
         r.forget = forget.clone();
+        if c.leaf {
+            r.node_list = crate::sim::peers::NodeList::None;
+        }
         peers.push(Box::new(r));
     }
     for i in 0..crowd {
@@ -87,6 +92,12 @@ pub fn build(cfg: &Cfg) -> (Scenario, Vec<Box<dyn Peer>>) {
         contacts.push(crowd_addr(i));
     }
     sc.nodes.push(NodeSpec { addr: n_addr(), id: Some(InfoHash::from(n_id())), read_only: true, announce_port: None, contacts, routers: vec![], start_ms: 0 });
+    for (i, c) in cfg.contacts.iter().enumerate() {
+        if c.leaf {
+            // makes the leaf age at a different time than everybody else
+            sc.actions.push((When::At(420_000), Action::PeerCommand { peer: c_addr(i), cmd: format!("ping {}", n_addr()) }));
+        }
+    }
     if let Some(every) = cfg.search_every_ms {
         let mut t = every;
         let mut j = 0;
@@ -195,11 +206,11 @@ pub fn judge(cfg: &Cfg, res: &RunResult) -> Vec<(String, String)> {
 }
 
 fn cfg_json(c: &Cfg) -> Value {
-    json!({"contacts": c.contacts.iter().map(|x| json!({"silent_at":x.silent_at,"hearsay":x.hearsay})).collect::<Vec<_>>(), "well_connected": c.well_connected, "search_every_ms": c.search_every_ms, "forget_after_ms": c.forget_after_ms, "minutes": c.minutes, "latency": c.latency, "per_contact_latency": c.per_contact_latency, "rng_seed": c.rng_seed})
+    json!({"contacts": c.contacts.iter().map(|x| json!({"silent_at":x.silent_at,"hearsay":x.hearsay,"leaf":x.leaf})).collect::<Vec<_>>(), "well_connected": c.well_connected, "search_every_ms": c.search_every_ms, "forget_after_ms": c.forget_after_ms, "minutes": c.minutes, "latency": c.latency, "per_contact_latency": c.per_contact_latency, "rng_seed": c.rng_seed})
 }
 fn cfg_parse(v: &Value) -> Cfg {
     Cfg {
-        contacts: v["contacts"].as_array().map(|a| a.iter().map(|x| Contact { silent_at: x["silent_at"].as_u64(), hearsay: x["hearsay"].as_bool().unwrap_or(false) }).collect()).unwrap_or_default(),
+        contacts: v["contacts"].as_array().map(|a| a.iter().map(|x| Contact { leaf: x["leaf"].as_bool().unwrap_or(false), silent_at: x["silent_at"].as_u64(), hearsay: x["hearsay"].as_bool().unwrap_or(false) }).collect()).unwrap_or_default(),
         well_connected: v["well_connected"].as_bool().unwrap_or(false),
         search_every_ms: v["search_every_ms"].as_u64(),
         forget_after_ms: v["forget_after_ms"].as_u64().unwrap_or(0),
@@ -246,7 +257,7 @@ pub fn configs(tier: Tier, seed: u64) -> Vec<Cfg> {
                         if tier == Tier::Quick && k == 3 && (mask.count_ones() == 2 || (search.is_some() != well_connected)) {
                             continue;
                         }
-                        let contacts: Vec<Contact> = (0..k).map(|i| Contact { silent_at: if mask & (1 << i) != 0 { Some(t) } else { None }, hearsay: false }).collect();
+                        let contacts: Vec<Contact> = (0..k).map(|i| Contact { leaf: false, silent_at: if mask & (1 << i) != 0 { Some(t) } else { None }, hearsay: false }).collect();
                         // everybody silent from the start in the single-contact regime never bootstraps: fine, nothing listed
                         out.push(Cfg { contacts, well_connected, search_every_ms: search, forget_after_ms: forget, minutes, latency: 20, per_contact_latency: vec![], rng_seed: seed });
                     }
@@ -258,7 +269,7 @@ pub fn configs(tier: Tier, seed: u64) -> Vec<Cfg> {
     for well_connected in [false, true] {
         for (s1, s2) in [(None, None), (None, Some(0u64)), (Some(960_000u64), None), (Some(60_000), Some(0))] {
             out.push(Cfg {
-                contacts: vec![Contact { silent_at: None, hearsay: false }, Contact { silent_at: s1, hearsay: true }, Contact { silent_at: s2, hearsay: true }],
+                contacts: vec![Contact { leaf: false, silent_at: None, hearsay: false }, Contact { leaf: false, silent_at: s1, hearsay: true }, Contact { leaf: false, silent_at: s2, hearsay: true }],
                 well_connected,
                 search_every_ms: None,
                 forget_after_ms: 300_000,
@@ -269,10 +280,18 @@ pub fn configs(tier: Tier, seed: u64) -> Vec<Cfg> {
             });
         }
     }
+    // leaf contacts (their answers name nobody), alone and next to ordinary ones, in both regimes
+    for well_connected in [false, true] {
+        for n in [1usize, 2] {
+            let mut contacts: Vec<Contact> = (0..n).map(|_| Contact { leaf: false, silent_at: None, hearsay: false }).collect();
+            contacts.push(Contact { leaf: true, silent_at: None, hearsay: false });
+            out.push(Cfg { contacts, well_connected, search_every_ms: None, forget_after_ms: 0, minutes, latency: 20, per_contact_latency: vec![], rng_seed: seed });
+        }
+    }
     // latencies (round trips stay below the shortest per-query timeout)
     for latency in [1u64, 200] {
         for well_connected in [false, true] {
-            out.push(Cfg { contacts: vec![Contact { silent_at: None, hearsay: false }, Contact { silent_at: Some(840_000), hearsay: false }], well_connected, search_every_ms: Some(600_000), forget_after_ms: 0, minutes, latency, per_contact_latency: vec![], rng_seed: seed });
+            out.push(Cfg { contacts: vec![Contact { leaf: false, silent_at: None, hearsay: false }, Contact { leaf: false, silent_at: Some(840_000), hearsay: false }], well_connected, search_every_ms: Some(600_000), forget_after_ms: 0, minutes, latency, per_contact_latency: vec![], rng_seed: seed });
         }
     }
     // every assignment of link latencies {1,20,200} ms to two contacts (one of them going silent at 14 min)
@@ -280,7 +299,7 @@ pub fn configs(tier: Tier, seed: u64) -> Vec<Cfg> {
         for l1 in [1u64, 20, 200] {
             for (s0, s1) in [(None, Some(840_000u64)), (Some(840_000u64), None), (None, None)] {
                 for well_connected in [false, true] {
-                    out.push(Cfg { contacts: vec![Contact { silent_at: s0, hearsay: false }, Contact { silent_at: s1, hearsay: false }], well_connected, search_every_ms: None, forget_after_ms: 0, minutes, latency: 20, per_contact_latency: vec![l0, l1], rng_seed: seed });
+                    out.push(Cfg { contacts: vec![Contact { leaf: false, silent_at: s0, hearsay: false }, Contact { leaf: false, silent_at: s1, hearsay: false }], well_connected, search_every_ms: None, forget_after_ms: 0, minutes, latency: 20, per_contact_latency: vec![l0, l1], rng_seed: seed });
                 }
             }
         }
@@ -288,7 +307,7 @@ pub fn configs(tier: Tier, seed: u64) -> Vec<Cfg> {
     if tier == Tier::Thorough {
         for k in 6..=8usize {
             for well_connected in [false, true] {
-                let contacts: Vec<Contact> = (0..k).map(|i| Contact { silent_at: if i % 3 == 1 { Some(960_000) } else { None }, hearsay: i % 4 == 3 }).collect();
+                let contacts: Vec<Contact> = (0..k).map(|i| Contact { leaf: false, silent_at: if i % 3 == 1 { Some(960_000) } else { None }, hearsay: i % 4 == 3 }).collect();
                 out.push(Cfg { contacts, well_connected, search_every_ms: Some(600_000), forget_after_ms: 600_000, minutes, latency: 20, per_contact_latency: vec![], rng_seed: seed });
             }
         }
